@@ -1029,6 +1029,11 @@ func classifyNonIdempotent(c *Case, n *ast.FileNode, out1, out2 string) string {
 	if kind == "whitespace" && strings.HasPrefix(out1, "\n") {
 		return "not-idempotent:whitespace:leading-blank-line"
 	}
+	if kind == "whitespace" && strings.Contains(c.Source, "\r\n") && idem(strings.ReplaceAll(c.Source, "\r\n", "\n")) == 1 {
+		// the same file with LF line endings is a fixpoint after one pass: the line endings are the trigger
+		// (a whitespace-only "\r" line inside a block comment is taken for content when the indentation is computed)
+		return "not-idempotent:whitespace:crlf-block-comment"
+	}
 	se, hasEmpty := blankEmptyStatements(c.Source, n)
 	if hasEmpty && idem(se) == 1 {
 		return "not-idempotent:empty-statement"
